@@ -93,6 +93,38 @@ Proof.
     cbn [rates_ok]. exact (conj Vlo (conj Vhi (conj Rlo (conj Rhi (conj Hle Hb))))).
 Qed.
 
+(** end to end: a base accepted by one of the three base constructors (int64
+    arguments), any list of layers accepted by the builder's [build] *)
+Definition ctor_base (b : backoff) : Prop :=
+  (exists d, d <= max_int64 /\ new_fixed d = Some b) \/
+  (exists mn mx, mx <= max_int64 /\ new_random mn mx = Some b) \/
+  (exists i mx m, mx <= max_int64 /\ new_expo i mx m = Some b).
+
+Lemma ctor_base_ok b : ctor_base b -> wf b /\ rates_ok b.
+Proof.
+  intros [(d & Hd & E)|[(mn & mx & Hm & E)|(i & mx & m & Hm & E)]].
+  - split; [eapply new_fixed_wf; eassumption|].
+    unfold new_fixed in E. destruct (0 <=? d); inversion E; exact I.
+  - split; [eapply new_random_wf; eassumption|].
+    unfold new_random in E. destruct (mn <? 0); [discriminate|].
+    destruct (mx <? mn); inversion E; exact I.
+  - split; [eapply new_expo_wf; eassumption|].
+    unfold new_expo in E. destruct (negb _); [discriminate|].
+    destruct (i <? 0); [discriminate|]. destruct (mx <? i); inversion E; exact I.
+Qed.
+
+Theorem built_envelope b ls b' p n rnd :
+  ctor_base b -> Forall layer_valid ls -> build b ls = Some b' ->
+  words rnd -> valid64 p -> (fltb fone p = true \/ F64.is_nan p = true) ->
+  exists d rnd', next_delay p b' n rnd = Some (d, rnd') /\ words rnd' /\
+    (if limit_hit b' n then d = -1 else 0 <= d <= max_int64).
+Proof.
+  intros Hb Hv E Hw Vp Hp. destruct (ctor_base_ok b Hb) as [Hwf Hr].
+  apply stack_envelope; try assumption.
+  - eapply build_wf; eassumption.
+  - eapply build_rates_ok; eassumption.
+Qed.
+
 (** non-vacuity: a three-layer stack over a random base meets the hypotheses *)
 Example stack_example :
   let half := of_bits 4602678819172646912 in
